@@ -66,6 +66,17 @@ sequence![
     ])
 }
 
+/// Verification hooks: the BER structures of this module are private
+#[cfg(rdp_rs_verif)]
+pub fn verif_connect_initial(user_data: Option<OctetString>) -> ImplicitTag<Sequence> {
+    connect_initial(user_data)
+}
+
+#[cfg(rdp_rs_verif)]
+pub fn verif_connect_response(user_data: Option<OctetString>) -> ImplicitTag<Sequence> {
+    connect_response(user_data)
+}
+
 /// Create a basic MCS PDU header
 fn mcs_pdu_header(pdu: Option<DomainMCSPDU>, options: Option<u8>) -> u8 {
     (pdu.unwrap_or(DomainMCSPDU::AttachUserConfirm) as u8) << 2 | options.unwrap_or(0)
